@@ -10,10 +10,11 @@ import OdakModel.Exec.OpsProp
 import OdakModel.Exec.OpsLoss
 import OdakModel.Exec.OpsCodec
 import OdakModel.Exec.OpsDual
+import OdakModel.Exec.OpsGenGeom
 /-! `odakdrv`: reads one operation per line on stdin, prints the model's answer per line. -/
 namespace Odak.Exec
 
-def allOps : List (String × Handler) := opsIndex ++ opsWave ++ opsBeam ++ opsRot ++ opsPolar ++ opsRay ++ opsRays ++ opsColour ++ opsSlicing ++ opsFovea ++ opsProp ++ opsLoss ++ opsCodec ++ opsHolo ++ opsDual
+def allOps : List (String × Handler) := opsIndex ++ opsWave ++ opsBeam ++ opsRot ++ opsPolar ++ opsRay ++ opsRays ++ opsColour ++ opsSlicing ++ opsFovea ++ opsProp ++ opsLoss ++ opsCodec ++ opsHolo ++ opsDual ++ opsGenGeom
 
 def step (line : String) : String :=
   match (line.trimAscii.toString.splitOn " ").filter (· ≠ "") with
